@@ -167,6 +167,7 @@ func twoPeers(c *hx.Ctx) (a, b, other []byte) {
 
 func c30(c *hx.Ctx) {
 	c.Type = "c30_case"
+	c.ShardSize = 50 // symbolic hash comparisons are the expensive part in Coq: more, smaller shards
 	c.Agree = "c30_agree"
 	c.Rule = "ComputeProtocolHash equality pattern on (peer pair, protocol id, context) pairs incl. every boundary-shifted split of short strings; one real controller with constrained solicitations receiving an incoming solicited stream; two real controllers joined by an in-memory link with solicitations on both sides (peer and transport constraints varied); non-trivial = distinct case with an equality that holds / a directive that is matched"
 	uni := pairUniverse(c)
@@ -435,9 +436,16 @@ func incoming(c *hx.Ctx, uni [][2][]byte, ownership bool) {
 	}
 }
 
-// settle waits until no value is delivered and no transient goroutine remains
-// for a few consecutive samples.
-func settle(na, nb *node, deadline time.Time) {
+// settle waits until the expected number of values has been delivered (bounded:
+// missing deliveries are what the oracle then reports) and after that until no
+// further value is delivered and no transient goroutine remains for a few
+// consecutive samples. The expectation only shortens / bounds the wait; the
+// verdict is taken on what was delivered.
+func settle(na, nb *node, expect int64, deadline time.Time) {
+	soft := time.Now().Add(3 * time.Second)
+	for na.total.Load()+nb.total.Load() < expect && time.Now().Before(soft) && time.Now().Before(deadline) {
+		time.Sleep(300 * time.Microsecond)
+	}
 	stable := 0
 	lastG, lastV := -1, int64(-1)
 	for stable < 5 && time.Now().Before(deadline) {
@@ -470,14 +478,14 @@ func lateDuplicate(c *hx.Ctx) {
 	for (r1.CountValues(false) == 0 || rb.CountValues(false) == 0) && time.Now().Before(deadline) {
 		time.Sleep(200 * time.Microsecond)
 	}
-	settle(na, nb, deadline)
+	settle(na, nb, 2, deadline)
 	r2 := na.addSol(s)
 	sen := solSpec{pid: []byte("verif/sentinel"), ctx: []byte{1}}
 	sa, sb := na.addSol(sen), nb.addSol(sen)
 	for (sa.CountValues(false) == 0 || sb.CountValues(false) == 0) && time.Now().Before(deadline) {
 		time.Sleep(200 * time.Microsecond)
 	}
-	settle(na, nb, deadline)
+	settle(na, nb, 4, deadline)
 	c.Eval()
 	c.Extra["late_identical_solicitation"] = map[string]any{"first_received": r1.CountValues(false), "late_received": r2.CountValues(false), "remote_received": rb.CountValues(false),
 		"note": "one stream per (link, hash): ls.matched is never cleared (controller.go evaluateMatches)"}
@@ -566,7 +574,20 @@ func twoNodes(c *hx.Ctx, uni [][2][]byte) {
 		time.Sleep(200 * time.Microsecond)
 	}
 	sentinelOK := sra.CountValues(false) > 0 && srb.CountValues(false) > 0
-	settle(na, nb, deadline)
+	expect := int64(2) // the sentinels
+	countExp := func(mine, theirs []solSpec, myRemote, theirRemote []byte, myT, theirT uint64) {
+		for _, s := range mine {
+			for _, t := range theirs {
+				if bytes.Equal(s.pid, t.pid) && bytes.Equal(s.ctx, t.ctx) && admitsGo(s, myRemote, myT) && admitsGo(t, theirRemote, theirT) {
+					expect++
+					break
+				}
+			}
+		}
+	}
+	countExp(sa, sb, pb, pa, ta, tb)
+	countExp(sb, sa, pa, pb, tb, ta)
+	settle(na, nb, expect, deadline)
 	ra, rb := na.received(), nb.received()
 	na.close()
 	nb.close()
@@ -671,6 +692,7 @@ func newValue(kind int) (link_solicit.SolicitMountedStream, *countStream) {
 
 func c31(c *hx.Ctx) {
 	c.Type = "c31_case"
+	c.ShardSize = 100
 	c.Agree = "c31_agree"
 	c.Rule = "Accept/Close/IsAccepted call lists on real SolicitMountedStream values (sequential: all lists up to length 4 plus random longer ones; concurrent: goroutines released together, result counts must be those of some interleaving of the model); real controller with several local solicitations (different peer/transport constraints) matching one incoming stream, then calls by the holders; non-trivial = distinct case in which exactly one of several holders/calls obtained the stream"
 	uni := pairUniverse(c)
